@@ -1340,3 +1340,109 @@ SCENARIOS = {
     "c10np": sc_c10_npindex,
     "c11": sc_c11,
 }
+
+
+# --------------------------------------------------------------------------
+# C20
+def _extent(t, o):
+    return (o._offset, own_size(t, o))
+
+
+def disjoint_ok(env, a, b):
+    (oa, sa), (ob, sb) = a, b
+    return sor(env, sle(env, oa + sa, ob), sle(env, ob + sb, oa))
+
+
+def sc_c20(env, t, v, cfg):
+    """pickle round trip of a group of objects sharing one buffer (the object, a second object of the same type,
+    and an Int64 array), at any placement / after growth"""
+    B = construct(env, t, v, cfg)
+    obj, buf = B.obj, B.buf
+    g = V.Gen(0, 2)
+    g.c = itertools.count(31)
+    v2 = g.sample(t)
+    o2 = V.make(t, v2, _buffer=buf)
+    exp2 = V.expected(t, v2)
+    group = [obj, o2, B.nbL]
+    m0 = env.mark()
+    try:
+        c1, c2, cn = env.pickle_roundtrip(group)
+    except BaseException as ex:
+        if not isinstance(ex, Exception):
+            raise
+        env.check(False, f"C20 pickling/unpickling raised {type(ex).__name__}: {str(ex)[:80]}")
+        env.reach()
+        return
+    env.no_stores_since(m0, "C20 pickling does not modify the originals' buffer")
+    env.check(c1._buffer is not buf, "C20 the unpickled object lives in a buffer of its own (independent of the original's)")
+    env.check(c1._buffer is c2._buffer and c1._buffer is cn._buffer, "C20 objects pickled together that shared a buffer still share one")
+    read_ok(env, t, c1, B.exp, "C20 the unpickled object has the same value at every field")
+    read_ok(env, t, c2, exp2, "C20 the second unpickled object has the same value at every field")
+    env.check([int(x) for x in cn] == NB_L, "C20 the unpickled array has the same items")
+    if t[0] != "uref":
+        env.check(env.eq(c1._offset, obj._offset), "C20 the unpickled object sits at the same offset of the restored buffer")
+        for what, o, c in (("first", obj, c1), ("second", o2, c2)):
+            try:
+                env.check(env.eq(own_size(t, c), own_size(t, o)), f"C20 the {what} unpickled object reports the size of the original")
+            except BaseException as ex:
+                if not isinstance(ex, Exception):
+                    raise
+                env.check(False, f"C20 the {what} unpickled object reports its size: raised {type(ex).__name__}")
+    # usable for further writes, independently of the originals
+    nb = c1._buffer
+    exp1 = B.exp
+    n = 0
+    for path, lt, lv in V.leaves(t, v):
+        nv = fitting_value(lt, lv)
+        if nv is None or not path or behind_ref(t, v, path[:-1]):
+            continue
+        n += 1
+        if n > cfg.get("max_assign", 3):
+            break
+        m = env.mark()
+        try:
+            V.set_at(t, c1, path, nv)
+        except BaseException as ex:
+            if not isinstance(ex, Exception):
+                raise
+            env.check(False, f"C20 assignment at {path} of the unpickled object raised {type(ex).__name__}: {str(ex)[:80]}")
+            continue
+        if t[0] != "uref":
+            env.frame(m, [(nb, c1._offset, own_size(t, c1))], f"C20 a write through the unpickled object touches only that object (leaf {path})")
+        exp1 = V.replace_at(t, exp1, path, V.expected(lt, nv))
+    read_ok(env, t, c1, exp1, "C20 the unpickled object reads back what was written through it")
+    read_ok(env, t, obj, B.exp, "C20 the original is unaffected by writes through the unpickled object")
+    read_ok(env, t, c2, exp2, "C20 the second unpickled object is unaffected by writes through the first")
+    # the restored buffer is a working allocator: a new object does not land on the restored ones
+    m = env.mark()
+    try:
+        extra = NEIGHBOUR(NB_R, _buffer=nb)
+    except BaseException as ex:
+        if not isinstance(ex, Exception):
+            raise
+        env.check(False, f"C20 allocating in the restored buffer raised {type(ex).__name__}: {str(ex)[:80]}")
+        env.reach()
+        return
+    ex_ext = (extra._offset, extra._size)
+    if t[0] != "uref":
+        env.check(disjoint_ok(env, ex_ext, _extent(t, c1)), "C20 an object allocated in the restored buffer does not overlap the first unpickled object")
+        env.check(disjoint_ok(env, ex_ext, _extent(t, c2)), "C20 an object allocated in the restored buffer does not overlap the second unpickled object")
+    env.check(disjoint_ok(env, ex_ext, (cn._offset, cn._size)), "C20 an object allocated in the restored buffer does not overlap the unpickled array")
+    env.check([int(x) for x in extra] == NB_R, "C20 the new object in the restored buffer reads back")
+    read_ok(env, t, c1, exp1, "C20 the unpickled object is intact after an allocation in the restored buffer")
+    read_ok(env, t, c2, exp2, "C20 the second unpickled object is intact after an allocation in the restored buffer")
+    env.check([int(x) for x in cn] == NB_L, "C20 the unpickled array is intact after an allocation in the restored buffer")
+    # usable as the source of a copy (needs the cached size/offsets)
+    if t[0] != "uref":
+        fb = env.fresh(0, tag="cp")
+        try:
+            cc = tg.build(t)(c2, _buffer=fb)
+            read_ok(env, t, cc, exp2, "C20 a copy made from the unpickled object has its value")
+        except BaseException as ex:
+            if not isinstance(ex, Exception):
+                raise
+            env.check(False, f"C20 copying the unpickled object raised {type(ex).__name__}: {str(ex)[:80]}")
+    env.reach()
+
+
+SCENARIOS["c20"] = sc_c20
